@@ -513,14 +513,21 @@ impl Engine for TrackerEngine {
         }
         // small-scope lifecycle sub-batch (see systematic.rs): after the random runs in the
         // quick tier (their indices and cases stay what they were), first in the thorough tier
+        // quick: every history of <= 2 operations; thorough: every history of <= 3 and one of
+        // every 8 consecutive histories of 4 (which one depends on the seed)
         let len = if thorough { 4 } else { 2 };
-        let sys = systematic::total(len);
+        let full = systematic::total(if thorough { 3 } else { 2 });
+        let sys = self.systematic_runs(thorough);
         let random = self.random_runs(thorough);
         let sys_index = if thorough {
             if index >= sys {
                 return self.gen(seed, thorough);
             }
-            index
+            if index < full {
+                index
+            } else {
+                full + (index - full) * 8 + seed % 8
+            }
         } else {
             if index < random {
                 return self.gen(seed, thorough);
@@ -808,7 +815,7 @@ impl Engine for TrackerEngine {
         match self.prop {
             "C01" => format!("one evaluation = one generated multi-scene detection history (objects doing random walks, crowds, exact twins, empty calls, rotation, features) with lifecycle calls, executed on one of the four real trackers under one seeded schedule; every returned record is checked against the output contract and the stored track. {common}"),
             "C02" => format!("one evaluation = one generated history on Sort/BatchSort (IoU or Mahalanobis); every call is re-derived from the observable pre-state by RefSort (independent f64 geometry/Kalman, brute-force optimal assignment) and asserted when margins allow. {common}"),
-            "C03" => format!("one evaluation = one generated history with lifecycle calls on one of the four trackers under a seeded schedule, checked by the lifecycle/conservation model after every operation, plus re-executions of the same history under other auto-waste periodicities whose observable results must be identical; the batch ends (quick) / starts (thorough) with the small-scope sub-batch of trackersim/systematic.rs: every lifecycle history of <=2 / <=4 operations over a 15-operation alphabet (two scenes in the same image region) for the four trackers and max_idle 0, 1, 2. {common}"),
+            "C03" => format!("one evaluation = one generated history with lifecycle calls on one of the four trackers under a seeded schedule, checked by the lifecycle/conservation model after every operation, plus re-executions of the same history under other auto-waste periodicities whose observable results must be identical; the batch ends (quick) / starts (thorough) with the small-scope sub-batch of trackersim/systematic.rs: every lifecycle history of <=2 / <=3 operations (thorough: plus a seeded eighth of those with 4) over a 15-operation alphabet (two scenes in the same image region) for the four trackers and max_idle 0, 1, 2. {common}"),
             "C04" => format!("one evaluation = one interleaved multi-scene history on one of the four trackers plus one execution per scene of its projection (fresh tracker, other shard count, schedule, hash seed, GC plan); canonical per-scene streams must be equal. {common}"),
             "C05" => format!("one evaluation = reference execution (1 shard, run-to-block schedule) plus 3 (quick) or 5 (thorough) variants with 1..8 shards under swarm schedules, fresh hash seeds and candidate-id streams; record streams must be identical (ids included for simple trackers, up to renaming for batch trackers) up to the first step with a non-unique optimum. {common}"),
             "C13" => format!("one evaluation = one generated history (incl. long single-object lifetimes, quality sequences increasing / decreasing / constant / random around the collect threshold, features present or absent, history lengths 1..10, max observations 1..6) on one of the four trackers; after every quiescent operation every stored track's box/feature histories and appearance gallery are compared with the per-track model, as are the tracks returned by wasted(). {common}"),
@@ -828,12 +835,20 @@ impl Engine for TrackerEngine {
     }
 
     fn runs(&self, thorough: bool) -> u64 {
-        let extra = if self.prop == "C03" { systematic::total(if thorough { 4 } else { 2 }) } else { 0 };
-        self.random_runs(thorough) + extra
+        self.random_runs(thorough) + self.systematic_runs(thorough)
     }
 }
 
 impl TrackerEngine {
+    fn systematic_runs(&self, thorough: bool) -> u64 {
+        if self.prop != "C03" {
+            0
+        } else if thorough {
+            systematic::total(3) + systematic::count(4) / 8
+        } else {
+            systematic::total(2)
+        }
+    }
     fn random_runs(&self, thorough: bool) -> u64 {
         match (self.prop, thorough) {
             ("C01", false) => 3000,
